@@ -213,11 +213,24 @@ def prove(ctx, props_module, extra_targets=("esrmodel",), leanchecker=False):
         modules = [props_module] if isinstance(props_module, str) else list(props_module)
         # an extractor that could not read today's source breaks the obligations of the properties using its table
         errs = (res["extract"] or {}).get("errors", {}) if isinstance(res["extract"], dict) else {}
+        res["fallback"] = {}
         if errs:
             used = generated_deps(modules)
+            try:
+                import importlib
+                allowed = dict(getattr(importlib.import_module("props.%s" % ctx.pid.lower()), "FALLBACK", {}))
+            except Exception:
+                allowed = {}
             for name, msg in errs.items():
                 if name in used:
-                    res["failed"].append("extract:%s: source shape not recognised (%s); theorems about Generated/%s.lean no longer speak about the current source" % (name, msg, name))
+                    if name in allowed and "baseline" in str(res["extract"].get("files", {}).get(name, "")):
+                        # translator cannot read today's source: the committed table is the (hand-written) model and the
+                        # property's correspondence check, run at escalated depth, is the whole tie (see decide())
+                        res["fallback"][name] = dict(reason=msg, tie=allowed[name])
+                    else:
+                        res["failed"].append("extract:%s: source shape not recognised (%s); theorems about Generated/%s.lean no longer speak about the current source" % (name, msg, name))
+            if res["fallback"] and isinstance(res["extract"], dict):
+                res["extract"]["fallback_tables"] = sorted(res["fallback"])
         names, nex = [], 0
         for m_ in modules:
             n_, e_ = theorem_names(os.path.join(LEAN, *m_.split(".")) + ".lean")
@@ -448,6 +461,21 @@ def decide(ctx, mod):
     code = 0
     nviol = 0
     seen = set()
+    fb = (ctx.proof or {}).get("fallback") or {}
+    if fb:
+        # the translator could not regenerate these tables: the theorems were checked over the committed tables, and only a
+        # complete, clean correspondence run (model executable vs real code) ties them to today's source
+        co, cd = int(ctx.extra.get("corr_obligations", 0)), int(ctx.extra.get("corr_discharged", 0))
+        if co == 0 or cd != co:
+            ctx.disagree("fallback", "translator could not read the source of table(s) %s (%s) and the correspondence that would tie the committed "
+                         "model to the code instead is not clean (%d of %d correspondence obligations discharged)" % (
+                             sorted(fb), "; ".join(v["reason"] for v in fb.values())[:300], cd, co))
+        elif not ctx.disagreements:
+            for n, v in sorted(fb.items()):
+                print("NOTE property=%s translator could not regenerate table %s (%s); theorems checked over the committed table, tied to the "
+                      "current source by the correspondence run at escalated depth (%d/%d obligations, 0 disagreements): %s" % (
+                          ctx.pid, n, v["reason"][:160], cd, co, v["tie"][:200]), flush=True)
+        ctx.extra["translator_fallback"] = fb
     for f in unknown:
         if f["key"] in seen:
             continue
